@@ -24,6 +24,15 @@ fi
 S=$(mktemp -d /tmp/seedchk.$SID.XXXX)
 rsync -a --exclude .git /repo/ $S/
 DEMO_SRC=$W/$DEMO_REL; [ -f "$DEMO_SRC" ] || DEMO_SRC=$O/$(basename $DEMO_REL)
+# a demo that only lives in the output directory: put it into the package its `package` clause names
+if [ "$(dirname $DEMO_REL)" = "." ]; then
+  PKGNAME=$(grep -m1 '^package ' $DEMO_SRC | awk '{print $2}')
+  if [ "$PKGNAME" != "webrtc" ] && [ "$PKGNAME" != "webrtc_test" ]; then
+    for d in $(grep '^+++ b/' $O/patch.diff | sed 's#^+++ b/##' | xargs -n1 dirname | sort -u); do
+      if grep -qs "^package ${PKGNAME%_test}\b" /repo/$d/*.go; then DEMO_REL=$d/$(basename $DEMO_REL); break; fi
+    done
+  fi
+fi
 DEMO_PKG=$(dirname $DEMO_REL)
 cp $DEMO_SRC $S/$DEMO_REL 2>/dev/null || cp $DEMO_SRC $S/
 DEMO_RUN=$(grep -o '^func Test[A-Za-z0-9_]*' $DEMO_SRC | sed 's/func //' | paste -sd'|')
